@@ -154,12 +154,18 @@ def fromIntBinary (f : Nat → Nat → Nat) (inLen outLen : Nat) (bigEndian : Bo
     let res := indexToInput (f (canonicalIndex b1) (canonicalIndex b2)) outLen
     if bigEndian then res else res.reverse⟩
 
-/-- `TruthTableModel.define` / `PyFunctionModel.define`: fill the `none` (don't-care) entries from
-`definition`; `none` result = KeyError for a missing definition (PyFunctionModel, lazily) -/
+/-- one item of `definition.items()`: the entry `(output d.1.2, column of d.1.1)` is set to `d.2` if it
+is still a don't-care (`none`); an already defined value is kept -/
+def defineStep (t : List (List (Option Bool))) (d : (List Bool × Nat) × Bool) : List (List (Option Bool)) :=
+  t.zipIdx.map (fun (ro : List (Option Bool) × Nat) =>
+    if ro.2 == d.1.2 then ro.1.zipIdx.map (fun (vi : Option Bool × Nat) =>
+      if vi.2 == canonicalIndex d.1.1 && vi.1.isNone then some d.2 else vi.1) else ro.1)
+
+/-- `TruthTableModel.define` (and, entry by entry, `PyFunctionModel.define`): fill the `none`
+(don't-care) entries from `definition`, in the order of its items -/
 def defineTable (model : List (List (Option Bool))) (defn : List ((List Bool × Nat) × Bool)) :
     List (List (Option Bool)) :=
-  defn.foldl (fun t d => t.zipIdx.map (fun (r, o) =>
-    if o == d.1.2 then r.zipIdx.map (fun (v, i) => if i == canonicalIndex d.1.1 then some d.2 else v) else r)) model
+  defn.foldl defineStep model
 
 end FRep
 end Cirbo
